@@ -1565,10 +1565,15 @@ func runRace(c raceCase, yieldSeed int64) map[int]string {
 		datas[i] = w.encode(o.from, o.ns, o.cid, o.payload)
 	}
 	var wg sync.WaitGroup
+	var feeder sync.WaitGroup
+	var mu sync.Mutex
 	results := make([]string, len(c.rcvs))
+	cancels := make([]context.CancelFunc, len(c.rcvs))
 	start := make(chan struct{})
 	for i, o := range c.rcvs {
 		wg.Add(1)
+		ctx, cancel := context.WithCancel(context.Background())
+		cancels[i] = cancel
 		go func() {
 			defer wg.Done()
 			<-start
@@ -1584,19 +1589,17 @@ func runRace(c raceCase, yieldSeed int64) map[int]string {
 			for j, f := range o.froms {
 				froms[j] = sharing.ID(f)
 			}
-			ctx, cancel := context.WithTimeout(context.Background(), 60*time.Second)
-			defer cancel()
 			res, err := v.ReceiveFrom(ctx, o.cid, froms...)
-			if err != nil && errors.Is(err, context.DeadlineExceeded) {
-				results[i] = "timeout"
-				return
+			mu.Lock()
+			if results[i] == "" {
+				results[i] = classify(res, err)
 			}
-			results[i] = classify(res, err)
+			mu.Unlock()
 		}()
 	}
-	wg.Add(1)
+	feeder.Add(1)
 	go func() {
-		defer wg.Done()
+		defer feeder.Done()
 		<-start
 		y := vh.NewRng(yieldSeed, "C11", "yield-feeder", c.idx)
 		for i, o := range c.deps {
@@ -1607,7 +1610,29 @@ func runRace(c raceCase, yieldSeed int64) map[int]string {
 		}
 	}()
 	close(start)
-	wg.Wait()
+	feeder.Wait()
+	// every message is with the reader now: each receive must return by itself.  Only if one does
+	// not, time matters: after a generous wait it is recorded as `timeout` and then cancelled.
+	done := make(chan struct{})
+	go func() { wg.Wait(); close(done) }()
+	select {
+	case <-done:
+	case <-time.After(raceTimeout):
+		mu.Lock()
+		for i := range results {
+			if results[i] == "" {
+				results[i] = "timeout"
+			}
+		}
+		mu.Unlock()
+		for _, cancel := range cancels {
+			cancel()
+		}
+		<-done
+	}
+	for _, cancel := range cancels {
+		cancel()
+	}
 	rt.Close()
 	close(d.in)
 	m := map[int]string{}
@@ -1616,6 +1641,8 @@ func runRace(c raceCase, yieldSeed int64) map[int]string {
 	}
 	return m
 }
+
+var raceTimeout = 60 * time.Second
 
 func evalRace(a vh.Args, res *vh.Result, cases []raceCase, procs []int) {
 	texts := make([]string, len(cases))
